@@ -128,7 +128,7 @@ struct Dest {
    std::set<int> st;
    int arr[3] = {0, 0, 0};
    std::array<int, 3> sa{{0, 0, 0}};
-   std::bitset<8> bs;
+   std::bitset<8> bs; std::bitset<200> bigbs;
    std::vector<bool> vb;
    std::map<int, int> kv;
    std::tuple<int, int, int> tp{0, 0, 0};
@@ -257,7 +257,7 @@ void setup(Handler& ah, Dest& d, int cfg, int part /* 0 = all, 1/2 = halves for 
       ah.addArgument("t,set", DEST_VAR(d.st), "set");
       ah.addArgument("a,arr", DEST_VAR(d.arr), "array");
       ah.addArgument("y,stdarr", DEST_VAR(d.sa), "std::array");
-      ah.addArgument("b,bits", DEST_VAR(d.bs), "bitset");
+      ah.addArgument("b,bits", DEST_VAR(d.bs), "bitset"); ah.addArgument("B,bigbits", DEST_VAR(d.bigbs), "bitset of several words");
       d.vb.resize((pa_opt >> 7) & 3);          // a destination that already has 0..3 (cleared) positions
       ah.addArgument("z,vbool", DEST_VAR(d.vb), "vector<bool>");
       ah.addArgument("f,flag", DEST_VAR(d.f), "flag");
@@ -386,6 +386,7 @@ void check_dests(const Tmpl& t, const Dest& d) {
       else if (k == "ratio") check_fp(t, e, d.ratio, 0.25, false, "destination ratio (double, range-checked)");
       else if (k == "quota") check_fp(t, e, d.quota, 0.25, false, "destination quota (double, lower/upper-checked)");
       else if (k == "flt") check_fp(t, e, (double) d.flt, 0.5, true, "destination flt (float)");
+      else if (k == "bigbs") { size_t want = 0; for (auto& part : split(e, ',')) { long pos = part[0] == '#' ? slot_int(t.slots[part[1] - '0']) : to_long(part); vs_assert(pos >= 0 && pos < 200 && d.bigbs.test((size_t) pos), "destination bigbs (bitset<200>) has the position set"); ++want; } vs_assert(d.bigbs.count() <= want, "destination bigbs (bitset<200>) has no other position set"); }
       else if (k == "bs") check_int(t, e, (int) d.bs.to_ulong(), 0, "destination bs (bitset)");
    }
 }
